@@ -2,7 +2,8 @@
 import hashlib, json, os, re
 from vf.lib import VERIF
 
-KNOWN_FILE = os.path.join(VERIF, 'known_findings.json')
+KNOWN_DIR = os.path.join(VERIF, 'known')          # known/<ID>.json: source of truth, one file per property
+KNOWN_FILE = os.path.join(VERIF, 'known_findings.json')  # merged index for readers (bin/mkmanifest regenerates it)
 
 
 def record(kind, site='', features=(), config=None, detail='', text=''):
@@ -19,11 +20,18 @@ def bucket(rec):
     return (rec['kind'], rec['site'], tuple(rec['features']))
 
 
+def load_all():
+    data = []
+    if os.path.isdir(KNOWN_DIR):
+        for fn in sorted(os.listdir(KNOWN_DIR)):
+            if fn.endswith('.json'):
+                with open(os.path.join(KNOWN_DIR, fn)) as f:
+                    data.extend(json.load(f))
+    return data
+
+
 def load(prop=None):
-    if not os.path.exists(KNOWN_FILE):
-        return []
-    with open(KNOWN_FILE) as f:
-        data = json.load(f)
+    data = load_all()
     out = []
     for e in data:
         if prop is None or prop in e.get('properties', [e.get('property')]):
